@@ -9,7 +9,8 @@
 EXTENDS Integers, Sequences, FiniteSets, TLC, TLCExt, Json
 
 CONSTANTS N,        \* threads
-          Prog,     \* Prog[t]: sequence of "new" / "free" (free of the most recently obtained waiter still held); the thread then exits
+          Prog,     \* Prog[t]: sequence of "new" / "free" (free of the most recently obtained waiter still held) / "exit" (waiter_destroy runs:
+                    \* thread-local destructors run in no particular order, so nsync calls may follow); the thread then exits
           MaxW      \* bound on allocations (for the type of the state only)
 
 Threads == 1..N
@@ -77,6 +78,8 @@ Waiters == 1..MaxW
   {
    c0: while (ip[self] <= Len(Prog[self])) {
          if (Prog[self][ip[self]] = "new") { ip[self] := ip[self] + 1; call wnew(); }
+         else if (Prog[self][ip[self]] = "exit") { ip[self] := ip[self] + 1; call wexit(); }   \* the destructor has run, but the thread goes on
+                                                                              \* using nsync (a later thread-local destructor of the client)
          else { ip[self] := ip[self] + 1; call wfree(); };
        };
    cx: call wexit();
@@ -274,11 +277,17 @@ c0(self) == /\ pc[self] = "c0"
                                                                            pc        |->  "c0" ] >>
                                                                        \o stack[self]]
                                   /\ pc' = [pc EXCEPT ![self] = "pn_1_l"]
-                             ELSE /\ ip' = [ip EXCEPT ![self] = ip[self] + 1]
-                                  /\ stack' = [stack EXCEPT ![self] = << [ procedure |->  "wfree",
-                                                                           pc        |->  "c0" ] >>
-                                                                       \o stack[self]]
-                                  /\ pc' = [pc EXCEPT ![self] = "pf_1_l"]
+                             ELSE /\ IF Prog[self][ip[self]] = "exit"
+                                        THEN /\ ip' = [ip EXCEPT ![self] = ip[self] + 1]
+                                             /\ stack' = [stack EXCEPT ![self] = << [ procedure |->  "wexit",
+                                                                                      pc        |->  "c0" ] >>
+                                                                                  \o stack[self]]
+                                             /\ pc' = [pc EXCEPT ![self] = "px_1_l"]
+                                        ELSE /\ ip' = [ip EXCEPT ![self] = ip[self] + 1]
+                                             /\ stack' = [stack EXCEPT ![self] = << [ procedure |->  "wfree",
+                                                                                      pc        |->  "c0" ] >>
+                                                                                  \o stack[self]]
+                                             /\ pc' = [pc EXCEPT ![self] = "pf_1_l"]
                   ELSE /\ pc' = [pc EXCEPT ![self] = "cx"]
                        /\ UNCHANGED << ip, stack >>
             /\ UNCHANGED << spin, freeq, tw, res, use, nalloc, held, cur, o >>
